@@ -433,9 +433,16 @@ func (c Conc) bytes(n, b0 int) []byte {
 	return b
 }
 
-var otherRunes = []string{"/", ":", "a", " ", "\n", "٣", "é", "_", "+", "\x00"}
+var otherRunes = []string{"/", ":", "a", " ", "\n", "٣", "é", "_", "+", "\x00", "\r", "\t", ".", "１"}
 
-func (c Conc) text(shape []any) string {
+// forceX >= 0 makes every text concretisation use the forceX-th "other" character (sweeps set it)
+var forceX = -1
+
+func (c Conc) text(shape []any) string { return c.textWith(shape, forceX) }
+
+// textWith concretises a shape; x >= 0 forces the x-th "other" character at every X position (so that a
+// sweep can go through all of them: slash, colon, letter, space, newline, non-ASCII digit, ...).
+func (c Conc) textWith(shape []any, x int) string {
 	var sb strings.Builder
 	for _, s := range shape {
 		switch s.(string) {
@@ -444,7 +451,11 @@ func (c Conc) text(shape []any) string {
 		case "H":
 			sb.WriteByte('-')
 		default:
-			sb.WriteString(otherRunes[c.r.Intn(len(otherRunes))])
+			if x >= 0 {
+				sb.WriteString(otherRunes[x%len(otherRunes)])
+			} else {
+				sb.WriteString(otherRunes[c.r.Intn(len(otherRunes))])
+			}
 		}
 	}
 	return sb.String()
